@@ -238,9 +238,13 @@ class C12(Prop):
     for i in range(n):
       allow_inf = (i % 4 == 3)
       spec = None
-      for _ in range(20):
+      for _ in range(40):
         spec = G.gen_spec(rng, allow_inf, 300)
-        if not G.has_custom(spec) and (G.has_multi(spec) or rng.chance(0.4)):
+        if G.has_custom(spec):
+          continue
+        if allow_inf and G.is_finite(spec):
+          continue          # this stream must contain a float decision point
+        if G.has_multi(spec) or rng.chance(0.4):
           break
       if G.has_custom(spec):
         spec = G.S([G.C(2, [[], [], []], True, False)])
